@@ -526,6 +526,10 @@ def simplify_call(key, args):
             return ("const", some)
         if name in ("is_none", "is_err"):
             return ("const", not some)
+    # a Cow built on this path: its content, whichever way it is held
+    if args and args[0][0] == "agg" and args[0][1] == "std::borrow::Cow" and args[0][2] in ("Borrowed", "Owned") and args[0][3]:
+        if key.rsplit("::", 1)[1] in ("into_owned", "to_string", "deref", "as_ref", "to_owned", "into"):
+            return args[0][3][0][1]
     # the `?` operator on values whose variant is known on this path
     if key.endswith("FromResidual>::from_residual") and args:
         if key.startswith("<std::result::Result"):
